@@ -9,7 +9,7 @@ from vp import lab as labmod, explore as X, content as C
 from vp.lab import Config
 
 LEVEL = "model_checking"
-BUDGET = {"quick": 150, "thorough": 1500}
+BUDGET = {"quick": 240, "thorough": 2400}
 
 
 def configs(tier):
@@ -42,10 +42,27 @@ def init_ops(cfg):
     return ops
 
 
+def variants(cfg, tier):
+    """initial states the search starts from (name, extra ops after the clean initial sync)"""
+    d2 = "d3" if cfg.tag == "hole" else "d2"
+    v = [("synced", [])]
+    first = cfg.levels == 1 and not cfg.splits
+    if tier == "quick" and not first:
+        # quick: the extra initial states on the first configuration only, plus the REP one on the second
+        if cfg.hashsize == 8:
+            v.append(("copy-partly-synced", [("cp", "d1", "a", d2, "a"), ("cmd", "sync", "-B", "1")]))
+        return v
+    if cfg.tag != "hole" or tier == "thorough":
+        v += [("copy-partly-synced", [("cp", "d1", "a", d2, "a"), ("cmd", "sync", "-B", "1")]),
+              ("killed-after-parity", [("write", "d1", "n", 1025, 0), ("cmd", "sync", "--test-kill-after-sync")]),
+              ("rehash-pending", [("cmd", "rehash")])]
+    return v
+
+
 FILE_OPS = [
     ("write", "d1", "a", 5000, 1), ("write", "d1", "a", 1024, 2), ("write", "d1", "n", 1025, 0),
     ("write", "d2", "n2", 2500, 0), ("rm", "d1", "a"), ("rm", "d2", "b"), ("mv", "d1", "a", "d1", "m"),
-    ("cp", "d1", "a", "d2", "a"), ("write", "d2", "b", 1025, 1),
+    ("cp", "d1", "a", "d2", "a"), ("write", "d2", "b", 1025, 1), ("dupdata", "d1", "a", "d2", "x"), ("rm", "d2", "a"),
 ]
 CMDS = [
     ("cmd", "sync"), ("cmd", "sync", "-B", "1"), ("cmd", "sync", "-S", "1", "-B", "1"), ("cmd", "sync", "-F"),
@@ -113,8 +130,7 @@ def key_of(v):
 def run(ctx):
     tier = ctx.tier
     depth = 3 if tier == "quick" else 4
-    ctx.set("rule", "BFS over op sequences (file ops + every sync flavour/scrub/fix/rehash/touch) of depth<=%d from a "
-                    "synced initial array, per configuration; states deduplicated by canonical hash of (data trees, "
+    ctx.set("rule", "BFS over op sequences (file ops + every sync flavour/scrub/fix/rehash/touch) of depth<=%d from each of up to 4 initial states (clean sync; copy partly synced = REP blocks recorded; killed after the parity update = CHG blocks recorded; hash migration pending) per configuration; states deduplicated by canonical hash of (data trees, "
                     "decoded content w/o inodes, parity bytes); a case is a transition (state, op); non-trivial = the "
                     "op is a snapraid command executed on a state with >=1 stripe whose blocks are all synced" % depth)
     tot_states = tot_trans = 0
@@ -129,13 +145,23 @@ def run(ctx):
             ctx.violation(key_of(v), "%s in %s after %s" % (v["kind"], cfg.short(), v["where"]),
                           dict(cfg=cfg.describe(), history=hist, violation=v))
 
-        ex = X.Explorer(ctx, cfg, init_ops(cfg), alphabet(tier, cfg), step, depth, label=cfg.short(), seed=ctx.seed)
-        ex.run(on_violation)
-        tot_states += ex.states
-        tot_trans += ex.transitions
-        ctx.set("states[%s]" % cfg.short(), ex.states)
-        ctx.set("transitions[%s]" % cfg.short(), ex.transitions)
-        ctx.set("depth_completed[%s]" % cfg.short(), ex.maxdepth)
+        for vname, vops in variants(cfg, tier):
+            if ctx.out_of_time():
+                ctx.cap("deadline before %s/%s" % (cfg.short(), vname))
+                break
+            label = "%s/%s" % (cfg.short(), vname)
+            ex = X.Explorer(ctx, cfg, init_ops(cfg) + vops, alphabet(tier, cfg), step, depth, label=label, seed=ctx.seed)
+            try:
+                ex.run(on_violation)
+            except RuntimeError as e:
+                if "initial op" in str(e) and vname == "rehash-pending":
+                    continue        # a configuration already using the other hash cannot schedule a migration
+                raise
+            tot_states += ex.states
+            tot_trans += ex.transitions
+            ctx.set("states[%s]" % label, ex.states)
+            ctx.set("transitions[%s]" % label, ex.transitions)
+            ctx.set("depth_completed[%s]" % label, ex.maxdepth)
     ctx.set("states", tot_states)
     ctx.set("transitions", tot_trans)
     ctx.set("evaluations", tot_trans)
